@@ -2,6 +2,8 @@ use core::fmt;
 use core::time::Duration;
 use humantime::format_rfc3339;
 use serde::{Deserialize, Serialize};
+// verification hook: under cfg(bp7_verif) `CreationTimestamp::now` shadows this import
+#[cfg_attr(bp7_verif, allow(unused_imports))]
 use std::sync::Mutex;
 use std::time::UNIX_EPOCH;
 
@@ -93,6 +95,9 @@ impl CreationTimestamp {
         // The pair handed out by the previous call (`None` before the first call). Time and
         // sequence number are updated together under one lock, so no two calls can ever
         // return the same pair, whatever the thread interleaving.
+        // verification hook: instrumented mutex that yields to a scheduler before every lock attempt
+        #[cfg(bp7_verif)]
+        use crate::verif_hooks::Mutex;
         static LAST: Mutex<Option<(DtnTime, u64)>> = Mutex::new(None);
         let now = dtn_time_now();
         let mut last = LAST.lock().unwrap_or_else(|e| e.into_inner());
